@@ -664,6 +664,13 @@ func cloneRules(c *Ctx) {
 				if x.Tok == token.DEFINE && len(x.Lhs) == 1 && len(x.Rhs) == 1 && isFresh(x.Rhs[0]) {
 					dstName = x.Lhs[0].(*ast.Ident).Name
 				}
+			case *ast.DeclStmt:
+				// var dst T: a fresh zero value, filled through its address
+				if gd, isG := x.Decl.(*ast.GenDecl); isG && gd.Tok == token.VAR && len(gd.Specs) == 1 {
+					if vs, isV := gd.Specs[0].(*ast.ValueSpec); isV && len(vs.Names) == 1 && len(vs.Values) == 0 {
+						dstName = vs.Names[0].Name
+					}
+				}
 			case *ast.CallExpr:
 				if funcHoleWho(rs, x.Fun) == "deepcopy" && len(x.Args) == 2 {
 					a0, a1 := canon(x.Args[0]), canon(x.Args[1])
